@@ -278,6 +278,15 @@ pub fn tok_random(code: &str, r: &mut Rng, n: usize, per_case: usize) -> Vec<Cas
         for s in [w.to_string(), format!("ab {} cd", w), format!("{}a", w)] { ops.push(Op::TokQ(s.clone())); ops.push(Op::TokR(s)); }
     }
     cases.push(Case { name: format!("tok-special-{}", code), lang: code.to_string(), stream: "AC-tok-special-case-forms", ops: std::mem::take(&mut ops) });
+    // texts typed one character at a time (each text extends the previous one; a decomposed accent arrives one
+    // keystroke after its base letter): first as queries, then as titles
+    for round in 0..3 {
+        let w: String = { let mut t = decompose(&v.title(r)); if t.chars().count() < 3 || round == 0 { t = decompose(&format!("{} {}", v.word(r), v.accents.first().map(|c| c.to_string()).unwrap_or_default())); } t };
+        let cs: Vec<char> = w.chars().take(16).collect();
+        for k in 1..=cs.len() { ops.push(Op::TokQ(cs[..k].iter().collect())); }
+        for k in 1..=cs.len() { ops.push(Op::TokR(cs[..k].iter().collect())); }
+    }
+    cases.push(Case { name: format!("tok-typed-{}", code), lang: code.to_string(), stream: "AC-tok-typed", ops: std::mem::take(&mut ops) });
     for i in 0..n {
         let s = match r.below(4) { 0 => { let k = r.range(0, 12); random_unicode(r, k) } _ => v.title(r) };
         ops.push(Op::TokQ(s.clone()));
@@ -334,6 +343,19 @@ pub fn jacc_cases(r: &mut Rng, exhaustive_len: usize, random_n: usize) -> Vec<Ca
     // growth boundaries of the two per-instance buffers: on a fresh instance a short pair that leaves the two buffers at
     // different lengths (d more distinct items on one side), then pairs whose lengths sit on either side of the
     // initial capacity and of its doublings
+    // many distinct items on one side (positions beyond 31 / 63 in the sorted set), few on the other, sharing the largest
+    {
+        let wide = |n: usize| -> Vec<char> { (0..n).filter_map(|i| char::from_u32(0x100 + 3 * i as u32)).collect() };
+        let mut ops = vec![];
+        for n in [31usize, 32, 33, 34, 40, 63, 64, 65, 70] {
+            let big = wide(n);
+            for small in [vec![big[n - 1]], vec![big[n - 1], big[0]], big[n - 5..].to_vec(), vec![big[n / 2], big[n - 1], 'a'], big[1..n.min(33)].to_vec()] {
+                ops.push(Op::Jacc(big.clone(), small.clone()));
+                ops.push(Op::Jacc(small.clone(), big.clone()));
+            }
+        }
+        cases.push(Case { name: "jaccw".to_string(), lang: "none".to_string(), stream: "jacc-many-distinct", ops });
+    }
     let distinct = |n: usize, off: usize| -> Vec<char> { (0..n).map(|i| alpha[(i + off) % alpha.len()]).collect() };
     let mut k = 0;
     for d in 0..4usize {
@@ -671,13 +693,43 @@ pub fn typing_case(code: &str, v: &Vocab, r: &mut Rng, name: String) -> Case {
         for k in 1..=q.len().min(12) { ops.push(Op::Search(q[..k].iter().collect())); }
         ops.push(Op::Search(format!("{} ", q.iter().collect::<String>())));
     }
+    // a record arrives in the middle of a session: a word is typed, a record with an unrelated title is added, and
+    // the user goes on typing that new title's first word after a space
+    {
+        let t = r.pick(&titles).clone();
+        let first: String = t.split_whitespace().next().unwrap_or("a").chars().take(8).collect();
+        for k in 1..=first.chars().count() { ops.push(Op::Search(first.chars().take(k).collect())); }
+        let fresh = format!("{} {}", v.word(r), v.word(r));
+        ops.push(Op::Add(900, 3, fresh.clone()));
+        let next: Vec<char> = fresh.chars().take(6).collect();
+        for k in 1..=next.len() { ops.push(Op::Search(format!("{} {}", first, next[..k].iter().collect::<String>()))); }
+    }
     Case { name, lang: code.to_string(), stream: "F-store-typing", ops }
+}
+
+/// titles and queries that repeat a word or use two words with a common prefix ("duran duran", "metal metallic"):
+/// the query's grams are de-duplicated across its words, so gram counts understate what the matcher can score;
+/// asked at limit 1 and at limit 10
+pub fn repeated_words_case(code: &str, v: &Vocab, r: &mut Rng, name: String) -> Case {
+    let w: String = loop { let w = v.word(r); if w.chars().count() >= 5 && w.chars().all(|c| c.is_alphabetic()) { break w; } };
+    let ext: String = format!("{}{}", w, (0..3).map(|_| *r.pick(&v.letters)).collect::<String>());
+    let other = v.word(r);
+    let swapped: String = { let mut cs: Vec<char> = ext.chars().collect(); cs.swap(1, 2); let n = cs.len(); cs.swap(n - 3, n - 2); cs.into_iter().collect() };
+    let titles = vec![format!("{} {}", w, other), format!("{} {}", w, w), format!("{} {}", w, ext), ext.clone(), format!("{} {}", other, w)];
+    let mut ops = vec![Op::New, Op::Limit(1)];
+    for (i, t) in titles.iter().enumerate() { ops.push(Op::Add(100 + i, 50 - 7 * i, t.clone())); }
+    let queries = vec![format!("{} {}", w, w), format!("{} {}", w, ext), swapped, format!("{} {} ", ext, w), w.clone()];
+    for q in &queries { ops.push(Op::Search(q.clone())); }
+    ops.push(Op::Limit(10));
+    for q in &queries { ops.push(Op::Search(q.clone())); }
+    Case { name, lang: code.to_string(), stream: "F-store-repeated-words", ops }
 }
 
 pub fn store_cases(code: &str, r: &mut Rng, n: usize) -> Vec<Case> {
     let v = vocab(code);
     let mut cases = vec![];
     cases.push(long_title_case(code, &v, r, format!("long-title-{}", code)));
+    cases.push(repeated_words_case(code, &v, r, format!("repeated-{}", code)));
     for i in 0..n {
         if i % 2 == 0 { cases.push(typing_case(code, &v, r, format!("typing-{}-{}", code, i))); }
         cases.push(relatives_case(code, &v, r, format!("relatives-{}-{}", code, i)));
